@@ -23,7 +23,13 @@ func (s *PfcpServer) ServeReport(sr *report.SessReport) {
 	addr := fmt.Sprintf("%s:%d", sess.rnode.ID, factory.UpfPfcpDefaultPort)
 	laddr, err := net.ResolveUDPAddr("udp4", addr)
 	if err != nil {
-		return
+		// the Node ID is not an IPv4 address (an IPv6 address, or an FQDN
+		// that does not resolve): use the address the node associated from
+		ua, ok := sess.rnode.addr.(*net.UDPAddr)
+		if !ok {
+			return
+		}
+		laddr = &net.UDPAddr{IP: ua.IP, Port: factory.UpfPfcpDefaultPort}
 	}
 
 	var usars []report.USAReport
